@@ -300,7 +300,55 @@ def run(chk):
         ok = any(core.describe(prog, st, t["args"][1])[0:3] == ("variant", "humphrey::thread::pool::Message", "Shutdown") for blk, t in st.calls_to(r"mpsc::Sender::<T>::send$"))
         chk.ob("R5.stop", st.path, "stop() queues Message::Shutdown behind the pending tasks", ok, "")
     join_rules(chk, prog, None)
+    generation_rule(chk, prog)
     _typing_witness(chk)
+
+def channel_close_sites(b):
+    """blocks in which the pool's task Sender is overwritten or dropped (the channel the workers wait on is closed)"""
+    out = []
+    for i, blk in enumerate(b.blocks):
+        for st in blk["stmts"]:
+            if "pl" in st and "rv" in st and st["pl"]["p"] and st["pl"]["p"][-1][0] == "f" and "mpsc::Sender<humphrey::thread::pool::Message>" in str(st["pl"]["p"][-1][2]):
+                out.append(i)
+        t = b.term(i)
+        if t and t["k"] == "call" and core.call_matches(t, r"mem::(replace|take|drop|swap)$") and any("mpsc::Sender<humphrey::thread::pool::Message>" in a for a in t.get("arg_tys", [])):
+            out.append(i)
+    return out
+
+
+def generation_rule(chk, prog):
+    """R4.generation: every start() gives its workers and its recovery thread a freshly allocated threads vector.  The recovery thread of an earlier
+    start() survives stop() (it is only detached) and indexes its vector by worker id: sharing one vector between generations lets it take and join a
+    healthy worker of the next generation while holding the vector's lock."""
+    b = prog.bodies.get("humphrey::thread::pool::ThreadPool::start")
+    chk.floor("ThreadPool::start", 1 if b else 0, 1)
+    if not b:
+        return
+    st = prog.structs.get("humphrey::thread::pool::ThreadPool", {}).get("fields", [])
+    ti = next((i for i, x in enumerate(st) if "Vec<humphrey::thread::pool::Thread>" in x["ty"]), None)
+    rec = b.calls_to(r"RecoveryThread::new$")
+    chk.floor("RecoveryThread::new in start()", len(rec), 1)
+    fresh = []
+    for i, blk in enumerate(b.blocks):
+        for s_ in blk["stmts"]:
+            if "pl" in s_ and "rv" in s_ and [e[1] for e in s_["pl"]["p"] if e[0] == "f"] == [ti] and s_["pl"]["l"] == 1:
+                d = core.describe_rv(prog, b, s_["rv"])
+                if isinstance(d, tuple) and d[0] == "call" and d[1].endswith("Arc::<T>::new"):
+                    fresh.append(i)
+    for blk, t in rec:
+        for a in t["args"]:
+            d = core.describe(prog, b, a)
+            if not desc_contains(d, lambda y: y[0] == "field" and y[2] == ti and isinstance(y[1], tuple) and y[1][0] == "param"):
+                if "Vec<humphrey::thread::pool::Thread>" in str(b.local_ty(core.op_local(a)) if core.op_local(a) is not None else ""):
+                    d_ = d[2][0] if d[0] == "call" and d[1].endswith("Clone>::clone") and d[2] else d
+                    ok = isinstance(d_, tuple) and d_[0] == "call" and d_[1].endswith("Arc::<T>::new")
+                    chk.ob("R4.generation", b.path, "the recovery thread gets the threads vector allocated by this start()", ok, f"threads = {core.short(str(d))[:120]}", where=b.where(blk))
+                continue
+            wp = core.must_pass(b, [0], [blk], through_nodes=fresh, after_from=False) if fresh else [0, blk]
+            chk.ob("R4.generation", b.path, "self.threads is a fresh Arc::new(..) on every path to RecoveryThread::new(.., self.threads.clone(), ..)", wp is None,
+                   "start() reuses the vector of the previous generation: the detached recovery thread of an earlier start() indexes it with its own worker ids, "
+                   "takes a healthy new worker's handle and joins it under the lock (pool never returns to N workers; drop blocks forever)", where=b.where(blk), path=wp)
+
 
 def join_rules(chk, prog, prefix):
     """R6/R7: no join on a thread that cannot return; no join while holding a lock the joined thread takes."""
@@ -346,6 +394,19 @@ def join_rules(chk, prog, prefix):
                         chk.ob(r7, p, f"no lock of the joined thread held across join ({core.short(c.path)})", not clash,
                                f"join while holding {clash}, which the joined thread also takes: deadlock", where=e.where(jb))
             chk.ob(rid, p, f"joined thread identified: {what}", bool(joined), "could not tell which thread is joined", where=b.where(blk))
+            # a worker (a thread that runs tasks) joined from the pool's own stop / drop path
+            spawned_paths = {c2.path for _, _, c2 in sp}
+            if any(c.calls_to(CALL_ONCE) for c in joined) and p not in spawned_paths and not any(p.startswith(x + "::") for x in spawned_paths):
+                if prefix is not None:
+                    chk.ob(prefix, p, "the shutdown path does not wait for worker threads", False,
+                           "a worker is joined on the path that App::run takes after the shutdown signal (stop / drop of the pool): a worker that is handling an idle "
+                           "keep-alive connection, an open WebSocket or a slow handler does not finish in bounded time, so neither does run()", where=b.where(blk))
+                else:
+                    closes = channel_close_sites(b)
+                    wp = core.must_pass(b, [0], [blk], through_nodes=closes, after_from=False) if closes else [0, blk]
+                    chk.ob("R6.join_worker", p, "a worker is joined only after the task channel was closed (self.tx replaced or dropped) on every path", wp is None,
+                           "the Sender the workers wait on is still alive at the join (it is a field of the pool being stopped / dropped): every worker that was not "
+                           "sent its own Shutdown message sits in recv() forever and the caller blocks forever", where=b.where(blk), path=wp)
     chk.extra["join_sites"] = joins
 
 
